@@ -206,9 +206,9 @@ def asymptotic(ts, q, qa, nsigma=(2, 1, 0, -1, -2), clipped=False):
     return clsb, clb, clsb / clb, exp
 
 
-def hypotest_reference(model, mu, data, ts="qtilde", clipped=False):
+def hypotest_reference(model, mu, data, ts="qtilde", clipped=False, bounds=None):
     """analytic asymptotic hypothesis test for a Counting model: dict(obs, tails, expected, q, qA, muhat)."""
-    bounds = (-5, 10) if ts == "q" else (0, 10)
+    bounds = bounds or ((-5, 10) if ts == "q" else (0, 10))
     if ts == "q0":
         q, muhat = model.q0(data, bounds)
         asim = model.asimov(1, data)
